@@ -99,6 +99,7 @@ public:
         }
 
         std::size_t position(Handle h) {
+            COCLS_VERIF_POINT(pub_position);
             return _regs[h]._pos;
         }
 
@@ -268,6 +269,7 @@ public:
              _q.resize(std::min({need_len, _max_queue_len, _q.size()}));
              auto wk = std::move(_wakeup_buffer);
              lk.unlock();
+             COCLS_VERIF_POINT(pub_push_unlocked);
              for (awaiter *x: wk) x->resume();
              lk.lock();
              std::swap(wk, _wakeup_buffer);
@@ -284,6 +286,7 @@ public:
                 iter->_kicked =true;
             }
             lk.unlock();
+            COCLS_VERIF_POINT(pub_kick_unlocked);
             if (awt) awt->resume();
         }
 
